@@ -64,10 +64,10 @@ func (m *storageManager) setRaw(key string, raw []byte, exp time.Duration) {
 }
 
 // delete data from storage or memory
-func (m *storageManager) delRaw(key string) {
+func (m *storageManager) delRaw(key string) error {
 	if m.storage != nil {
-		_ = m.storage.Delete(key) //nolint:errcheck // TODO: Do not ignore error
-	} else {
-		m.memory.Delete(key)
+		return m.storage.Delete(key)
 	}
+	m.memory.Delete(key)
+	return nil
 }
